@@ -182,6 +182,10 @@ def configs(tier):
     gr(2, 2, (1, 2))
     wc(2, 1, (2, 1), container='ndarray')
     wc(1, 1, (1, 1, 1), resubmit=True)
+    wc(5, 1, (1, 1))            # size thresholds: more parameters (10 neighbours per design)
+    wc(7, 2, (1,))
+    gr(5, 1, (1, 1))
+    gr(8, 1, (1,))
     wc(2, 2, (2, 1), resubmit=True)
     gr(2, 1, (2, 1), container='ndarray')
     if tier == 'thorough':
